@@ -2,7 +2,8 @@ import os, subprocess
 
 
 def pregen(ctx):
-    """Regenerates lean/MahfModel/Generated/Templates.lean from the trees the real constructors build."""
+    """Regenerates lean/MahfModel/Generated/Templates.lean (kinds only) and Generated/TemplatesSized.lean (kinds +
+    size parameters) from the trees the real constructors build."""
     lean, target = ctx["lean"], ctx["target"]
     ok, out = ctx["build_bin"]("c16")          # other properties (C06, C07) share this regenerated layer
     if not ok:
@@ -22,12 +23,20 @@ def pregen(ctx):
         old = open(path).read() if os.path.exists(path) else ""
         if old != gen.stdout:
             open(path, "w").write(gen.stdout)
+        gen = subprocess.run([os.path.join(lean, ".lake", "build", "bin", "drv_c16"), "--gen-sized"], input=trees.stdout,
+                             capture_output=True, text=True, timeout=600)
+        if gen.returncode != 0 or gen.stdout.count("\ndef ") != 84:
+            raise RuntimeError("sized tree translation failed: " + (gen.stderr or gen.stdout)[-400:])
+        path = os.path.join(lean, "MahfModel", "Generated", "TemplatesSized.lean")
+        old = open(path).read() if os.path.exists(path) else ""
+        if old != gen.stdout:
+            open(path, "w").write(gen.stdout)
 
 
 CONFIG = dict(
     bin="c16",
     drv="drv_c16",
-    lean_modules=["MahfModel.Props.C16"],
+    lean_modules=["MahfModel.Props.C16", "MahfModel.Props.C16Size"],
     namespaces=["MahfModel.Props.C16"],
     pregen=pregen,
     shrink=False,
@@ -36,22 +45,34 @@ CONFIG = dict(
           "instances (Sphere d=1,2,3,5 incl. an infeasible optimum; OneMax 3..12; TSP 5..8 cities incl. distances spread "
           "over 1e-3..1e6) x iteration bounds {0,1,7} (quick) / {0,1,2,7,25} (thorough) x seeds; each run is observed "
           "through the step observer (height and size before/after every Block child and every loop pass). A run is "
-          "non-trivial if it makes at least one loop pass; distinct = distinct (template, variant, instance, iterations, seed)."),
-    nontrivial=lambda inp: " 0 " not in inp.split("(seq", 1)[0][-14:] and not inp.split("(seq", 1)[0].rstrip().rsplit(" ", 2)[-2] == "0",
+          "non-trivial if it makes at least one loop pass; distinct = distinct (template, variant, instance, iterations, seed). "
+          "Size probes (K only): every size-relevant component (all selections incl. DE/IWO, replacements, crossovers with "
+          "insert_both true/false x pc {0,.5,1}, DE mutation/crossovers, SA acceptance, duplicate/clear/interleave) built by its real "
+          "constructor over a parameter grid and executed once on 58 prepared stacks (sizes 0..15 incl. odd, empty and unequal "
+          "operands, empty stack): the sizes afterwards must lie in the interval the model's transformer predicts."),
+    nontrivial=lambda inp: inp.startswith("(sizeprobe") or (" 0 " not in inp.split("(seq", 1)[0][-14:] and not inp.split("(seq", 1)[0].rstrip().rsplit(" ", 2)[-2] == "0"),
     trusted_base=[
         "leafEffect (declared height change per component) is read from each component's execute; it is validated on every executed step of every run (K) but not proved from the Rust source",
+        "opOf (declared effect of each component on population sizes, Model/TemplatesSize.lean) is read from each component's execute; for every executed step the observed size after is checked to lie in the interval sizeStep predicts from the observed sizes of the top three populations before (K), but it is not proved from the Rust source",
         "the name-preserving serde serializer + tree translator (harness/src/sertree.rs, Model/Templates.lean ofSexp)",
         "step observer hook H1 (cfg mahf_verif) reports heights faithfully"],
     assumptions=["conditions, seeds, iteration counts and failure points are an arbitrary oracle in the theorem",
-                 "population *size* bounds and absence of Err/panic are checked on the explored runs only (partial)"],
+                 "the population-size bound is decided statically by a verified interval analysis for 19 of 21 templates (the analysis cannot bound the two ILS templates, which leak a population per pass) and additionally checked on the explored runs for all",
+                 "absence of Err/panic is checked on the explored runs only (partial)"],
     level_text=("Lean 4: a stack-effect analysis over the component-tree language (Block/Loop/Branch/Scope/leaf) proved sound for "
                 "every execution of an abstract interpreter (all condition outcomes, iteration counts, failure points); on every run "
-                "the trees of all 21 templates x 3 parameter points are re-extracted from the code's own Serialize output and the "
-                "kernel re-checks `balanced tree = true` by `decide` (63 regenerated obligations; the two ILS templates are proved "
-                "unbalanced, a recorded defect). Correspondence: every executed component's observed height change equals its declared "
-                "effect; run-level oracle: result Ok, exact iteration count, per-pass balance, final height 1, size within prescription."),
-    level_note=("partial: 'no Err/panic for every seed and instance' and the population-size bound are explored on the generated runs, "
-                "not proved (numeric failure modes, duplicate individuals in CRO). Trusted: Lean kernel, declared leaf effects (K-validated), "
-                "serializer/translator, hook H1."),
+                "the trees of all 21 templates x 4 parameter points are re-extracted from the code's own Serialize output and the "
+                "kernel re-checks `balanced tree = true` by `decide` (84 regenerated obligations; the two ILS templates are proved "
+                "unbalanced, a recorded defect). Population sizes: an interval analysis over the trees WITH their size parameters "
+                "(stack of size intervals, checked inductive invariant per loop, hull at branches) proved sound for every execution of a "
+                "concrete size interpreter; the kernel re-checks `sizeWithin tree lo hi` for the prescribed bound on the 84 regenerated trees "
+                "(true for 19 templates; chemical reaction optimisation: >= 1, unbounded above; false = not established for the two ILS templates). "
+                "Correspondence: every executed component's observed height change equals its declared "
+                "effect and its observed size lies in the interval its size transformer predicts; run-level oracle: result Ok, exact iteration "
+                "count, per-pass balance, final height 1, size within prescription."),
+    level_note=("partial: 'no Err/panic for every seed and instance' is explored on the generated runs, not proved (numeric failure modes, "
+                "duplicate individuals in CRO); the population-size bound is proved over the model for the parameter points instantiated in "
+                "this run (not for all parameters), and only explored for the two ILS templates. Trusted: Lean kernel, declared leaf effects "
+                "and size transformers (K-validated), serializer/translator, hook H1."),
     technique="Lean 4 proof of a sound static analysis + kernel evaluation on trees regenerated from the source on every run + differential run audit",
 )
